@@ -397,7 +397,8 @@ pub async fn pull_room(src: &GraphDatabaseService, dst: &GraphDatabaseService, r
                 Err(e) => return (format!("err:{}", class(&e)), modified as usize, false),
             }
         }
-        let filtered = match dst.filter_existing_node(remote_nodes).await {
+        // as `synchronise_day` does since /repo ffeda5d: ids that carry a deletion record of the room are not requested
+        let filtered = match dst.filter_existing_room_node(room, remote_nodes).await {
             Ok(f) => f,
             Err(e) => return (format!("err:{}", class(&e)), modified as usize, false),
         };
